@@ -27,3 +27,12 @@ Example C17_example :
   let r := atlas_run (fun b => Some b) (fun b => Some b) (fun _ => true) w 0 0 1000000 in
   r_tmp_left r = [] /\ r_status r = Exit1 /\ List.length (r_trace r) = 6.
 Proof. vm_compute. auto. Qed.
+
+(* ---------- the whole command ---------- *)
+From Model Require Import Json Tables Walker Line Stream Cli KeyFile Job.
+From Proofs Require Import JobProofs.
+(* whatever the command line, the environment, the file system and the endpoint: when the command (Model/Job.v) ends,
+   no downloaded log is left in the temporary directory *)
+Theorem C17_job_no_tmp_left : forall tb cs a w, j_tmp_left (job tb cs a w) = 0%nat.
+Proof. exact job_no_tmp_left. Qed.
+Print Assumptions C17_job_no_tmp_left.
